@@ -6,6 +6,8 @@
 #include <cmath>
 #include <type_traits>
 #include <utility>
+#include <cstring>
+#include <type_traits>
 using namespace adept;
 using verif::SpyStack;
 
@@ -164,6 +166,41 @@ int main() {
         if (!vars.count(k) || !vars.count(i)) { std::cout << "EXC unknown_handle\n"; continue; }
         if (w[0] == "adep") vars[k]->add_derivative_dependence(*vars[i], atof(w[3].c_str()));
         else vars[k]->append_derivative_dependence(*vars[i], atof(w[3].c_str()));
+        std::cout << "ok\n";
+      } else if ((w[0] == "adepv" || w[0] == "apdepv") && w.size() >= 5 && w[4] == ":" && (w.size() - 5) % 2 == 0) {
+        // adepv|apdepv <form a|r|c> <k> <stride> : i1 m1 i2 m2 ..   the ARRAY forms of add/append_derivative_dependence
+        // (rhs = pointer to n contiguous Active objects, multipliers read with the given stride), called through an
+        // Active (a), an ActiveReference (r) or an ActiveConstReference (c) that refers to variable k
+        long k = atol(w[2].c_str()); int stride = atoi(w[3].c_str());
+        size_t n = (w.size() - 5) / 2;
+        bool okh = vars.count(k) && stride >= 1 && stride <= 4 && (w[1] == "a" || w[1] == "r" || w[1] == "c");
+        for (size_t j = 0; okh && j < n; ++j) okh = vars.count(atol(w[5 + 2 * j].c_str()));
+        if (!okh) { std::cout << "EXC unknown_handle\n"; continue; }
+        // the API wants the right-hand sides contiguous: bitwise images of the live variables (never constructed or
+        // destroyed: an Active constructor registers a gradient, its copy constructor records a statement); only
+        // gradient_index() is read from them.  Unused multiplier slots hold a value that would show if it were read.
+        typedef std::aligned_storage<sizeof(adouble), alignof(adouble)>::type Raw;
+        std::vector<Raw> raw(n + 1);
+        std::vector<double> mult(n * stride + 1, 77.0);
+        for (size_t j = 0; j < n; ++j) {
+          std::memcpy(&raw[j], vars[atol(w[5 + 2 * j].c_str())], sizeof(adouble));
+          mult[j * stride] = atof(w[6 + 2 * j].c_str());
+        }
+        const adouble* rhs = reinterpret_cast<const adouble*>(&raw[0]);
+        adouble& x = *vars[k];
+        bool add = w[0] == "adepv";
+        if (w[1] == "a") {
+          if (add) x.add_derivative_dependence(rhs, &mult[0], (int)n, stride); else x.append_derivative_dependence(rhs, &mult[0], (int)n, stride);
+        } else if (w[1] == "r") {
+          double v = x.value(); ActiveReference<double> ref(v, x.gradient_index());
+          // (ActiveReference::append_derivative_dependence carries a stray `template <typename T>` whose T cannot be
+          // deduced: the documented call y.append_derivative_dependence(z, dy_dz, n) does not compile for array elements;
+          // an explicit template argument reaches the same code)
+          if (add) ref.add_derivative_dependence(rhs, &mult[0], (int)n, stride); else ref.append_derivative_dependence<double>(rhs, &mult[0], (int)n, stride);
+        } else {
+          ActiveConstReference<double> ref(x.value(), x.gradient_index());
+          if (add) ref.add_derivative_dependence(rhs, &mult[0], (int)n, stride); else ref.append_derivative_dependence(rhs, &mult[0], (int)n, stride);
+        }
         std::cout << "ok\n";
       } else if (w[0] == "pause") { st->pause_recording(); std::cout << "ok\n"; }
       else if (w[0] == "cont") { st->continue_recording(); std::cout << "ok\n"; }
